@@ -15,6 +15,7 @@ KNOWN-FINDING lines.
 """
 import os
 import sys
+import copy
 import json
 import time
 import random
@@ -164,7 +165,9 @@ def _worker_init(modname, env):
 
 def _run_one(mod, case):
     try:
-        res = mod.check_case(case)
+        # (a private copy: the library must not be able to change the case
+        # the verdict is recorded against)
+        res = mod.check_case(copy.deepcopy(case))
     except HarnessError:
         raise
     except Exception as e:
